@@ -27,7 +27,7 @@ ASSUMPTIONS = [
     "log and delegate (no behaviour change)",
 ]
 REQUIRED = {'assignments': 1000, 'deliveries': 1000, 'unchanged_assignments': 100,
-            'every_output_deliveries': 100, 'cblock_assignments': 50, 'filter_rejections': 20, 'cleanup_assignments': 20,
+            'every_output_deliveries': 100, 'cblock_assignments': 50, 'filter_rejections': 20, 'cleanup_assignments': 20, 'conditional_events': 50,
             'equal_not_identical_neighbours': 50}
 SHARDS = {'quick': 8, 'thorough': 16}
 TIMEOUT = {'quick': 300, 'thorough': 3000}
@@ -36,7 +36,7 @@ NAN = float('nan')
 NOINIT = object()
 VALUES = [0, 1, True, False, 1.0, None, '', (1,), (1.0,), [1], 'a', NAN, 2, -1]
 NUMERIC = [0, 1, True, False, 1.0, 2, -1, 3, 2.0]
-FKINDS = ['pass', 'reject_odd', 'edit_new', 'edit_inplace', 'pass', 'edit_empty', 'edit_clear', 'edit_strip']
+FKINDS = ['pass', 'reject_odd', 'edit_new', 'edit_inplace', 'pass', 'edit_empty', 'edit_clear', 'edit_strip', 'negate']
 FORMS = ['list', 'tuple', 'single', 'list']
 
 
@@ -75,6 +75,8 @@ def apply_filter(kind, n, data, counter):
         return data
     if kind == 'edit_strip':
         return {k: v for k, v in data.items() if k == 'value'}
+    if kind == 'negate':
+        return {**data, 'value': not data.get('value')}
     raise AssertionError(kind)
 
 
@@ -99,7 +101,9 @@ def gen(ctx):
         def evlist():
             k = rng.choice([0, 1, 1, 2, 3])
             return [{'dest': rng.randrange(3),
-                     'filters': [rng.choice(FKINDS) for _ in range(rng.choice([0, 0, 1, 2]))]}
+                     'filters': [rng.choice(FKINDS) for _ in range(rng.choice([0, 0, 1, 2]))],
+                     'cond': rng.choice([None, None, None, 'tn', 'nt']),
+                     'dup': rng.random() < 0.08}
                     for _ in range(k)]
         case = {'sender': sender, 'values': vals, 'on_output': evlist(),
                 'on_every': evlist() if sender in ('src', 'input', 'counter', 'inputexp') else [],
@@ -164,8 +168,15 @@ def build_and_run(case, ctx):
                 hist.log('lastfilter', eid, dict(data))
                 return True
             filters.append(rec)
-            ev = edzed.Event(f"d{spec['dest']}", f"{tag}{ei}", efilter=filters)
+            etype = f"{tag}{ei}"
+            if spec.get('cond') == 'tn':
+                etype = edzed.EventCond(etype, None)
+            elif spec.get('cond') == 'nt':
+                etype = edzed.EventCond(None, etype)
+            ev = edzed.Event(f"d{spec['dest']}", etype, efilter=filters)
             evs.append(ev)
+            if spec.get('dup'):
+                evs.append(ev)      # the very same Event object configured twice: sent twice
         if not evs:
             return None if form != 'tuple' else ()
         if form == 'tuple':
@@ -321,7 +332,7 @@ def oracle(case, out, ctx):
         if not is_c:
             groups.append(('e', case['on_every']))
         for tag, specs in groups:
-            for ei, spec in enumerate(specs):
+            for ei, spec in [(i, sp) for i, sp in enumerate(specs) for _ in range(2 if sp.get('dup') else 1)]:
                 data = dict(base)
                 alive = True
                 for fi, kindf in enumerate(spec['filters']):
@@ -334,7 +345,13 @@ def oracle(case, out, ctx):
                         break
                 if alive:
                     expected.append(('lastfilter', (tag, ei), dict(data)))
-                    expected.append(('recv', f"d{spec['dest']}", f"{tag}{ei}", dict(data)))
+                    # a conditional event type is resolved from the 'value' item the
+                    # destination would receive, i.e. after the filters
+                    cond = spec.get('cond')
+                    if cond:
+                        ctx.count('conditional_events')
+                    if not cond or (cond == 'tn') == bool(data.get('value')):
+                        expected.append(('recv', f"d{spec['dest']}", f"{tag}{ei}", dict(data)))
         got = [e for e in inside if e[2] in ('recv', 'lastfilter')]
         if len(got) != len(expected):
             raise core.Violation(
